@@ -9,5 +9,6 @@ func init() { props["TMPL"] = runTmpl }
 func runTmpl(c *caseWriter) (string, bool, map[string]int) {
 	genTmplText(c, tier != "thorough")
 	genSanitizerApply(c, tier != "thorough")
+	genHistories(c, tier != "thorough")
 	return "text-level template machine correspondence", false, nil
 }
